@@ -49,7 +49,7 @@ var atoms = []ref.RuleAtom{
 	{Name: "exclusiveMaximum", Variant: "true"}, {Name: "exclusiveMaximum", Variant: "false"},
 	{Name: "precision"}, {Name: "minLength"}, {Name: "maxLength"}, {Name: "maxLength", Variant: "disordered"}, {Name: "regex"},
 	{Name: "minItems"}, {Name: "maxItems"}, {Name: "maxItems", Variant: "disordered"},
-	{Name: "additionalProperties"}, {Name: "allOf"}, {Name: "enum"}, {Name: "or"},
+	{Name: "additionalProperties"}, {Name: "allOf"}, {Name: "enum"}, {Name: "or"}, {Name: "or", Variant: "disordered-set"}, {Name: "or", Variant: "ordered-set"},
 	{Name: "type", Variant: "kind"}, {Name: "type", Variant: "any"}, {Name: "type", Variant: "ref"}, {Name: "type", Variant: "decimal"}, {Name: "type", Variant: "date"},
 	{Name: "optional", Variant: "true"}, {Name: "nullable", Variant: "true"}, {Name: "nullable", Variant: "false"},
 	{Name: "const", Variant: "true"}, {Name: "const", Variant: "false"}, {Name: "foo"},
@@ -173,6 +173,20 @@ func build(c Case) (*ref.SNode, []ref.RuleAtom, bool) {
 				other = "boolean"
 			}
 			r.Or = []ref.OrItem{{Name: kn}, {Name: other}}
+			switch a.Variant {
+			case "disordered-set": // an alternative rule set whose own pair is out of order
+				pair := []ref.SRule{gen.TokRule("min", "5"), gen.TokRule("max", "1")}
+				if c.Kind == ref.NKInteger || c.Kind == ref.NKFloat {
+					pair = []ref.SRule{gen.TokRule("minLength", "5"), gen.TokRule("maxLength", "1")}
+				}
+				r.Or = []ref.OrItem{{Rules: pair}, {Rules: []ref.SRule{gen.StrRule("type", kn)}}}
+			case "ordered-set":
+				pair := []ref.SRule{gen.TokRule("min", "1"), gen.TokRule("max", "5")}
+				if c.Kind == ref.NKInteger || c.Kind == ref.NKFloat {
+					pair = []ref.SRule{gen.TokRule("minLength", "1"), gen.TokRule("maxLength", "5")}
+				}
+				r.Or = []ref.OrItem{{Rules: pair}, {Rules: []ref.SRule{gen.StrRule("type", kn)}}}
+			}
 		case "type":
 			switch a.Variant {
 			case "kind":
